@@ -197,6 +197,15 @@ impl Xerr {
 //@use corewords.fns State::load_core#w_late
 
 //@use corewords.fns State::load_core#w_const
+//@use corewords.fns State::load_core#w__x5b
+//@use corewords.fns State::load_core#w__x5d
+//@use corewords.fns State::load_core#w__x7b
+//@use corewords.fns State::load_core#w__x7d
+//@use corewords.fns State::load_core#w__x5e_x7b
+//@use corewords.fns State::load_core#w__x5e_x7d
+//@use corewords.fns State::load_core#w_immediate
+//@use corewords.fns State::load_core#w_defined
+//@use corewords.fns State::load_core#w_let
 
 // ---- `let`: run-time helper words it compiles calls of (named only), the emitter of a native call, a tag-key constant
 #[verifier::external_body] fn core_word_tags(xs: &mut State) -> Xresult { unimplemented!() }
@@ -240,6 +249,17 @@ impl State {
             final(self).code@.drop_last() == old(self).code@
     { unimplemented!() }
 }
+#[verifier::external_body] fn vec_builder_begin(xs: &mut State) -> Xresult { unimplemented!() }
+#[verifier::external_body] fn vec_builder_end(xs: &mut State) -> Xresult { unimplemented!() }
+#[verifier::external_body] fn map_builder_begin(xs: &mut State) -> Xresult { unimplemented!() }
+#[verifier::external_body] fn map_builder_end(xs: &mut State) -> Xresult { unimplemented!() }
+#[verifier::external_body] fn collect_tag_map(xs: &mut State) -> Xresult { unimplemented!() }
+//@use compile.fns ::core_word_vec_begin
+//@use compile.fns ::core_word_vec_end
+//@use compile.fns ::core_word_map_begin
+//@use compile.fns ::core_word_map_end
+//@use compile.fns ::core_word_tagmap_begin
+//@use compile.fns ::core_word_tagmap_end
 //@use compile.fns ::build_let_match
 //@use compile.fns ::build_let_vec_next
 //@use compile.fns ::build_let_named
